@@ -212,6 +212,40 @@ fact('vos_grow_protocol', 'bool', coq_bool(has(rw, r'if\s*\(\s*_vector\.capacity
 ch = body_of(se, r'Session::Channel::~Channel\s*\(')
 fact('channel_dtor_clears_magic_first', 'bool', coq_bool(has(ch, r'std::uint64_t\s+magic\s*=\s*0\s*;\s*memcpy\s*\(\s*_queue\.get\s*\(\s*\)\s*,\s*&magic\s*,\s*sizeof\s*\(\s*magic\s*\)\s*\)\s*;.*~Queue')))
 
+# ---------------------------------------------------------------- access table (C10): who touches which shared member, under the lock or not
+SHARED = ['_channels', '_clockSync', '_sources', '_sourcesConsumePos', '_nextSourceId', '_totalConsumedBytes', '_consumeClockSync', '_specialEntryBuffer', '_minSeverity']
+def fn_bodies(text, cls):
+    """(name, body) of every out-of-class member function definition of cls in text (constructors/destructors included)"""
+    out = []
+    for m in re.finditer(r'\b' + cls + r'::(~?\w+)\s*\(', text):
+        j = text.find(')', m.end())
+        # definition = followed by '{' or an initializer list before any ';'
+        k = m.end(); depth = 1
+        while k < len(text) and depth:
+            depth += (text[k] == '(') - (text[k] == ')'); k += 1
+        rest = text[k:k + 400]
+        mm = re.match(r'\s*(const)?\s*(noexcept)?\s*(:[^{;]*)?\{', rest, re.S)
+        if mm: out.append((m.group(1), body_of(text[m.start():], r'\b' + cls + r'::~?\w+\s*\(')))
+    return out
+acc = []
+LOCKRX = r'std::lock_guard<\s*std::mutex\s*>\s+\w+\s*\(\s*_mutex\s*\)\s*;'
+for name, body in fn_bodies(se, 'Session'):
+    lm = re.search(LOCKRX, body); lockpos = lm.start() if lm else None
+    for mem in SHARED + ['writerProp.id', 'writerProp.name', 'writerProp.batchSize', 'writerProp']:
+        rx = re.escape(mem) + (r'\b(?!\s*\.)' if mem == 'writerProp' else r'\b')
+        for mt in re.finditer(r'(?<![\w])' + rx, body):
+            if mem == 'writerProp' and re.match(r'writerProp\s*[\),]', body[mt.start():]) and name == 'createChannel': continue   # the by-value parameter of createChannel
+            acc.append((name, mem, lockpos is not None and lockpos < mt.start()))
+for name, body in fn_bodies(sw, 'SessionWriter'):
+    for mem in ['writerProp.id', 'writerProp.name', 'writerProp.batchSize', 'writerProp']:
+        rx = re.escape(mem) + (r'\b(?!\s*\.)' if mem == 'writerProp' else r'\b')
+        for mt in re.finditer(rx, body): acc.append(('SessionWriter::' + name, mem, False))
+acc = sorted(set(acc))
+fact('accesses', 'list (string * string * bool)', '[' + '; '.join('("%s", "%s", %s)' % (f, m_, coq_bool(l)) for f, m_, l in acc) + ']')
+# consumeSpecialEntry is private and only called from consume (under the caller's lock)
+fact('special_entry_called_only_from_consume', 'bool', coq_bool(len(re.findall(r'\bconsumeSpecialEntry\s*\(', se)) == len(re.findall(r'\bconsumeSpecialEntry\s*\(', body_of(se, locks['consume']))) + 2))
+fact('session_mutex_is_std_mutex', 'bool', coq_bool(has(se, r'std::mutex\s+_mutex\s*;')))
+
 out = ['(* GENERATED by tools/srcfacts.py from %s -- do not edit *)' % vlib.REPO,
        'From Coq Require Import List NArith String.', 'Import ListNotations.', 'Local Open Scope string_scope.', ''] + facts + ['']
 os.makedirs(os.path.join(vlib.COQ, 'Gen'), exist_ok=True)
